@@ -200,6 +200,9 @@ func runC03(t *sim.Tape, opt sim.RunOpt) *sim.Outcome {
 // the output had already been discarded (see runResult.mixedHistory).
 func runKey(class string, st *stream, r *runResult) string {
 	k := class + ":" + xformNames[st.kind]
+	if st.tag != "" {
+		k += ":" + st.tag
+	}
 	if r != nil && r.mixedHistory {
 		k += ":leftover_dst_history"
 	}
@@ -411,6 +414,14 @@ func runC07(t *sim.Tape, opt sim.RunOpt) *sim.Outcome {
 	o.Probe("decoder_" + xformNames[st.kind])
 	o.Nontrivial = len(st.payload) > 0
 	if !r.complete {
+		return o
+	}
+	if isError(r.final) && strings.Contains(r.final, "unsupported") {
+		// The decoder honestly declines a legal but exotic encoding (e.g.
+		// "#xz: unsupported filter combination" for two BCJ filters in a row).
+		// The property's encoder settings do not include it: not a violation.
+		o.Probe("decoder_declined_as_unsupported")
+		o.Probe("declined: " + r.final)
 		return o
 	}
 	if r.final != "" {
